@@ -1245,6 +1245,42 @@ classes plus distinct (program, machine, code address, block class) of EAR runs"
             report_failure(&mut model, &mut rep, fixed, &c, d);
         }
     }
+    // long blocks (more than 8192 bytes, beyond any 16-bit bit count): the real Tap under constant 16-T steps,
+    // its edge list adjudicated by the waveform spec alone (the model is not run: tens of millions of steps)
+    let long_lens: Vec<usize> = if o.thorough() { vec![8193, 8300, 16385, 40000] } else { vec![8300] };
+    for (i, len) in long_lens.iter().enumerate() {
+        let mut r = rng.fork();
+        let block = make_block(&mut r, if i % 2 == 0 { 0xFF } else { 0x00 }, *len);
+        let tape = encode(&[block.clone()]);
+        let n = nominal_t(&block) / 16 + 400_000;
+        let mut real = RealTap::new(&tape, 0);
+        real.cmd(&Cmd::Play);
+        let obs = real.cmd(&Cmd::Run { kind: 1, seed: 15, n });
+        let _ = model.ask("variant 1");
+        let _ = model.ask(&format!("tape {}", hex(&tape)));
+        let verdict = model.ask(&format!(
+            "adjudicate {}{}",
+            real.stop_time.map(|t| format!("{:x}", t)).unwrap_or("-".into()),
+            edges_text(&real.all_edges)
+        ));
+        rep.evaluations += real.all_edges.len() as u64;
+        rep.count("block_class", "long block (> 8192 bytes), spec only");
+        rep.count("spec_verdict", verdict.split(':').next().unwrap_or("?").to_string());
+        rep.class(format!("long block {} bytes", len));
+        let status = obs.map(|o| o.status).unwrap_or_default();
+        if let Some(v) = verdict.strip_prefix("violates:") {
+            let class = v.split(':').last().unwrap_or(v).to_string();
+            rep.violation(Violation {
+                kind: Kind::SpecViolated,
+                key: format!("C11/waveform/long-block/{}", class),
+                what: format!("a block of {} bytes played under 16-T steps: the EAR waveform is not the standard one: {} (run status {})", len, v, status),
+                correspondence: "corr.C11.component (Tap::process_clocks edges vs Model.Tape; Spec.Tape adjudicating)".into(),
+                case: J::obj(vec![("text", J::s(format!("longblock flag={:02x} len={} fill-seed={}", block[0], len, o.seed)))]),
+                implementation: truncate(&edges_text(&real.all_edges), 200),
+                expected: format!("standard waveform of the tape (Spec.acceptsBlock); verdict {}", truncate(&verdict, 200)),
+            });
+        }
+    }
     // malformed images: model only
     for (i, tape) in [vec![0u8, 0], vec![2, 0, 0xFF], vec![3, 0, 0xFF, 1, 0xFE, 0, 0, 2, 0, 0xFF, 0xFF], vec![0x90, 0, 0xFF, 1, 2, 3]].iter().enumerate() {
         let c = Case { tape: tape.clone(), chunk: 0, cmds: vec![Cmd::Play, Cmd::Run { kind: 0, seed: i as u32, n: 3_000_000 }] };
